@@ -55,26 +55,34 @@ def accept_cases():
 
 def refusal_reqs():
     reqs, meta = [], []
+    PH = "::core::marker::PhantomData"
     for n in (0, 1, 2, 3, 4):
         for style in ("tuple", "named", "unit"):
             if style == "unit" and n != 0:
                 continue
             for g in ("", "<T>"):
-                tys = ["u8", "::std::string::String", "T" if g else "i8", "bool"][:n]
-                if style == "tuple":
-                    item = f"struct Ty{g}(" + ", ".join(tys) + ");"
-                elif style == "named":
-                    item = f"struct Ty{g} {{ " + ", ".join(f"f{i}: {t}" for i, t in enumerate(tys)) + " }"
-                else:
-                    item = f"struct Ty{g};"
-                for traits in (["Deref"], ["DerefMut"], ["Deref", "DerefMut"], ["Clone", "Deref"]):
-                    for entry in ("attr", "derive"):
-                        tl = ", ".join(traits)
-                        if entry == "attr":
-                            reqs.append({"id": len(reqs), "entry": "attr", "attr": tl, "item": item})
-                        else:
-                            reqs.append({"id": len(reqs), "entry": "derive", "attr": "", "item": f"#[derive_ex({tl})] {item}"})
-                        meta.append((n, style, traits, entry))
+                p = "T" if g else "u8"
+                # field-type pools: ordinary types, and shapes whose extra fields are markers / zero-sized (still several fields)
+                pools = [["u8", "::std::string::String", "T" if g else "i8", "bool"]]
+                if n >= 2:
+                    pools += [[f"{PH}<{p}>", "u8", f"{PH}<()>", "()"], ["u8", f"PhantomData<{p}>", "()", "[u8; 0]"],
+                              [p, p, p, p], ["()", f"std::marker::PhantomData<{p}>", "u8", f"{PH}<u8>"]]
+                for tys in pools:
+                    tys = tys[:n]
+                    if style == "tuple":
+                        item = f"struct Ty{g}(" + ", ".join(tys) + ");"
+                    elif style == "named":
+                        item = f"struct Ty{g} {{ " + ", ".join(f"f{i}: {t}" for i, t in enumerate(tys)) + " }"
+                    else:
+                        item = f"struct Ty{g};"
+                    for traits in (["Deref"], ["DerefMut"], ["Deref", "DerefMut"], ["Clone", "Deref"]):
+                        for entry in ("attr", "derive"):
+                            tl = ", ".join(traits)
+                            if entry == "attr":
+                                reqs.append({"id": len(reqs), "entry": "attr", "attr": tl, "item": item})
+                            else:
+                                reqs.append({"id": len(reqs), "entry": "derive", "attr": "", "item": f"#[derive_ex({tl})] {item}"})
+                            meta.append((n, style, traits, entry))
     return reqs, meta
 
 
@@ -139,7 +147,8 @@ def run(rep, tier, rng):
     rep.rule = ("complete over the shape table: 11 single-field shapes (tuple/named, generics with bounds and where-clauses, const "
                 "and lifetime parameters, ?::core::marker::Sized, unsized-capable field types) x entry x {Deref, Deref+DerefMut}, compiled with "
                 "the real proc-macro and observed at run time (address identity, TypeId of Target, write-through); and arities "
-                "0-4 x struct kind x trait lists x entry for the refusal, judged on the in-process expansion.")
+                "0-4 x struct kind x field-type pool (ordinary types; PhantomData / () / [u8; 0] markers next to one real field; "
+                "all fields of one type) x trait lists x entry for the refusal, judged on the in-process expansion.")
 
 
 def replay(rep, path):
